@@ -428,3 +428,103 @@ def group_lang(pattern: str, index: int) -> Lang:
 # Python's own numeric literal syntaxes as accepted by int()/float() on str (finite values only)
 PY_INT = r"[ \t\n\r\f\v]*[+-]?\d+(_\d+)*[ \t\n\r\f\v]*"
 PY_FLOAT = r"[ \t\n\r\f\v]*[+-]?(\d+(_\d+)*\.?(\d+(_\d+)*)?|\.\d+(_\d+)*)([eE][+-]?\d+(_\d+)*)?[ \t\n\r\f\v]*"
+
+
+# ------------------------------------------------------------------ exponential backtracking (ambiguous iteration)
+def _iteration_ambiguity(body_items) -> Optional[str]:
+    """For an unbounded repeat (B)+ : is there a word with two different factorisations into B-words?  If so w^n has
+    2^n factorisations and a backtracking matcher tries them all when what follows fails.  Decided exactly on the DFA of
+    B: two runs of 'continue the current B-word' / 'start a new B-word' choices that differ somewhere and both end at a
+    word boundary.  -> a shortest ambiguous word, or None."""
+    nfa = NFA()
+    end, se = _build(nfa, body_items, nfa.start, False, False)
+    nfa.accept.add(end)
+    alpha = representatives([nfa])
+    d = DFA(nfa, alpha)
+    dead = {q for q in range(d.size) if not _can_accept(d, q)}
+
+    def moves(q, c):
+        out = [("cont", d.trans[q][c])]
+        if d.accepting[q] and q != 0:
+            out.append(("new", d.trans[0][c]))
+        return [(k, t) for k, t in out if t not in dead]
+
+    start = (0, 0, False)
+    seen = {start: None}
+    todo = deque([start])
+    while todo:
+        st = todo.popleft()
+        p, q, div = st
+        if div and d.accepting[p] and d.accepting[q]:
+            w = []
+            cur = st
+            while seen[cur] is not None:
+                cur, c = seen[cur]
+                w.append(c)
+            return "".join(reversed(w))
+        for c in alpha:
+            for k1, t1 in moves(p, c):
+                for k2, t2 in moves(q, c):
+                    nx = (t1, t2, div or k1 != k2)
+                    if nx not in seen:
+                        seen[nx] = (st, c)
+                        todo.append(nx)
+                        if len(seen) > 200000:
+                            raise Undecided("ambiguity product too large")
+    return None
+
+
+def _can_accept(d: "DFA", q0: int) -> bool:
+    seen = {q0}
+    todo = [q0]
+    while todo:
+        q = todo.pop()
+        if d.accepting[q]:
+            return True
+        for t in d.trans[q].values():
+            if t not in seen:
+                seen.add(t)
+                todo.append(t)
+    return False
+
+
+def exponential_repeats(pattern: str) -> List[Tuple[str, str]]:
+    """Unbounded repeats of the pattern whose iteration is ambiguous and that are followed by something that can fail
+    (anything at all, '$' included): [(description of the repeat, ambiguous word)].  Bounded repeats (max <= 8) are
+    ignored; larger bounded repeats are treated as unbounded."""
+    try:
+        parsed = P.parse(pattern)
+    except re.error as e:
+        raise Undecided(f"regex does not parse: {e}")
+    out: List[Tuple[str, str]] = []
+
+    def walk(items, followed: bool):
+        items = list(items)
+        for idx, (op, arg) in enumerate(items):
+            fol = followed or idx < len(items) - 1
+            if op is C.SUBPATTERN:
+                walk(arg[3], fol)
+            elif op is C.BRANCH:
+                for alt in arg[1]:
+                    walk(alt, fol)
+            elif op in (C.MAX_REPEAT, C.MIN_REPEAT):
+                lo, hi, sub = arg
+                unbounded = hi is C.MAXREPEAT or hi > 8
+                walk(sub, fol or unbounded)
+                if unbounded and fol and _has_choice(sub):
+                    w = _iteration_ambiguity(sub)
+                    if w is not None:
+                        out.append((f"repeat #{len(out) + 1} ({'{' + str(lo) + ',}'})", w))
+
+    walk(parsed, False)
+    return out
+
+
+def _has_choice(items) -> bool:
+    """Only a body that itself contains a repeat, an option or an alternation can be iterated ambiguously."""
+    for op, arg in items:
+        if op in (C.MAX_REPEAT, C.MIN_REPEAT, C.BRANCH):
+            return True
+        if op is C.SUBPATTERN and _has_choice(arg[3]):
+            return True
+    return False
